@@ -131,7 +131,7 @@ func TestTagFilterManySeries(t *testing.T) {
 			w.compact(func(int) bool { return true }, rapid.Bool().Draw(t, "delObsolete"))
 			check()
 		}
-		if !ev.Known(sigWedge) && rapid.Bool().Draw(t, "reopen") {
+		if rapid.Bool().Draw(t, "reopen") {
 			w.reopen()
 			check()
 		}
